@@ -172,6 +172,10 @@ func (d *dispatcher) RemoveHTTPCache(key []byte) {
 	lru.mu.Lock()
 	defer lru.mu.Unlock()
 	defer verifPoint("purge.done", d, lru, key)
+	// 标记该缓存已删除，避免其正在fetching的请求完成后再次保存至store
+	if hc, ok := lru.getCache(key); ok {
+		hc.markRemoved()
+	}
 	lru.removeCache(key)
 	verifPoint("purge.removed", d, lru, key)
 	if d.store != nil {
